@@ -1,4 +1,5 @@
 import SparseSpace.Properties.C04
+import SparseSpace.Properties.C04c
 import SparseSpace.Properties.C04b
 #print axioms SparseSpace.C04.interp_reproduces_pl
 #print axioms SparseSpace.C04.trap_exact_pl
@@ -28,3 +29,16 @@ import SparseSpace.Properties.C04b
 #print axioms SparseSpace.C04b.keep_low_levels
 #print axioms SparseSpace.C04b.direct_form_false
 #print axioms SparseSpace.C04b.keepsInitial_examples
+-- all histories without rebalancing: invariants, index-set characterisation, counterexamples to keepsInitial (Properties/C04c.lean)
+#print axioms SparseSpace.C04c.keeps_initial_false_v6_v8
+#print axioms SparseSpace.C04c.keeps_initial_false_v7
+#print axioms SparseSpace.C04c.keeps_initial_false_v3_float
+#print axioms SparseSpace.C04c.keeps_initial_true_on_the_same_histories
+#print axioms SparseSpace.C04c.witness_not_in_index_set
+#print axioms SparseSpace.C04c.run_nr
+#print axioms SparseSpace.C04c.all_histories_no_rebalancing
+#print axioms SparseSpace.C04c.index_set_contains_open_simplex
+#print axioms SparseSpace.index_set_contains
+#print axioms SparseSpace.fwdClosed_update
+#print axioms SparseSpace.raiseLoop_fix
+#print axioms SparseSpace.step_nr
